@@ -174,7 +174,8 @@ func (t *tracer) snapshot() []tev {
 	return out
 }
 
-func (t *tracer) install()   { jsonrpc.VerifSetHook(t.hook) }
+func (t *tracer) install() { jsonrpc.VerifSetHook(t.hook) }
+
 // uninstall waits until the hooks have been quiet for a moment (goroutines of the finished scenario winding
 // down), so that the next scenario's tracer does not see their events
 func (t *tracer) uninstall() {
